@@ -71,12 +71,16 @@ class C03(runner.Prop):
     def strategy(self, tier):
         ml = 12 if tier == 'quick' else 22
         general = st.fixed_dictionaries({'kind': st.just('agree'), 't': gen.tree_descs(ml), 'cfg': gen.configs()})
-        numeric = st.fixed_dictionaries({
-            'kind': st.just('reduce'),
-            't': gen.tree_descs(ml, leaf=st.integers(-5, 9).map(lambda n: ['i', n]),
-                                kinds=('tuple', 'list', 'dict', 'od', 'dd', 'deque', 'nt', 'cg', 'cn', 'cs', 'ci', 'dc')),
-            'cfg': gen.configs(predicates=['none', 'never', 'tuple2', 'is_cg']),
-            'initial': st.integers(-3, 3), 'use_initial': st.booleans()})
+        def numeric_of(ints):
+            return st.fixed_dictionaries({
+                'kind': st.just('reduce'),
+                't': gen.tree_descs(ml, leaf=ints.map(lambda n: ['i', n]),
+                                    kinds=('tuple', 'list', 'dict', 'od', 'dd', 'deque', 'nt', 'cg', 'cn', 'cs', 'ci', 'dc')),
+                'cfg': gen.configs(predicates=['none', 'never', 'tuple2', 'is_cg']),
+                'initial': st.integers(-3, 3), 'use_initial': st.booleans()})
+        # all / any only tell leaf sets apart when the other leaves are all truthy / all falsy: biased strata
+        numeric = st.one_of(numeric_of(st.integers(-5, 9)), numeric_of(st.integers(-5, 9)),
+                            numeric_of(st.sampled_from([0, 0, 0, 0, 0, 0, 0, 3])), numeric_of(st.integers(1, 9)))
         bad = st.fixed_dictionaries({
             'kind': st.just('error'),
             't': gen.tree_descs(ml, leaf=st.one_of(
@@ -170,9 +174,11 @@ class C03(runner.Prop):
         nums = all(isinstance(x, int) for x in leaves)
         ctx.nontrivial(len(leaves) >= 2)
         ctx.label('reduce_case')
-        if not nums:        # predicate made a container a leaf: folds over containers are not numeric
-            ctx.label('reduce_nonnumeric_skipped')
-            return
+        if not nums:
+            # the predicate made a container a leaf, or None is a leaf: the folds are still compared with the same
+            # Python fold over tree_leaves - both raise TypeError (or both answer); a fold that forgot is_leaf /
+            # none_is_leaf sees other leaves and answers differently
+            ctx.label('reduce_nonnumeric_leaves')
         init = case['initial']
 
         def same(name, f, g):
@@ -198,6 +204,14 @@ class C03(runner.Prop):
             same('tree_sum', lambda: optree.tree_sum(tree, **kw), lambda: sum(leaves))
             same('tree_max_key', lambda: optree.tree_max(tree, key=lambda v: -v, **kw), lambda: max(leaves, key=lambda v: -v))
             same('tree_min', lambda: optree.tree_min(tree, **kw), lambda: min(leaves))
+        pair = lambda a, b: (a, b)  # noqa: E731   (total over any leaves)
+        same('tree_reduce_pair', lambda: optree.tree_reduce(pair, tree, **kw), lambda: functools.reduce(pair, leaves))
+        same('tree_reduce_pair_init', lambda: optree.tree_reduce(pair, tree, init, **kw), lambda: functools.reduce(pair, leaves, init))
+        tkey = lambda v: (type(v).__name__, v if isinstance(v, int) else id(v))  # noqa: E731   (total order over any leaves)
+        same('tree_max_default_key', lambda: optree.tree_max(tree, default=init, key=tkey, **kw), lambda: max(leaves, default=init, key=tkey))
+        same('tree_min_key', lambda: optree.tree_min(tree, key=tkey, **kw), lambda: min(leaves, key=tkey))
+        same('tree_max_key2', lambda: optree.tree_max(tree, key=tkey, **kw), lambda: max(leaves, key=tkey))
+        same('tree_min_default_key2', lambda: optree.tree_min(tree, default=init, key=tkey, **kw), lambda: min(leaves, default=init, key=tkey))
         same('tree_all', lambda: optree.tree_all(tree, **kw), lambda: all(leaves))
         same('tree_any', lambda: optree.tree_any(tree, **kw), lambda: any(leaves))
         if not leaves:
